@@ -259,3 +259,26 @@ Theorem load_node_rejects :
   /\ load_node (JObj [(slit "node_id", JInt 256); (slit "node_type", JInt 17); (slit "protocol_version", JStr [])]) = None
   /\ load_node (JObj [(slit "node_id", JBool true); (slit "node_type", JInt 17); (slit "protocol_version", JStr [])]) = None.
 Proof. vm_compute. repeat split. Qed.
+
+(* ---------- every registry the gateway can reach is one that round-trips ---------- *)
+
+From AMS Require Import GatewayInv.
+
+(* the only thing the invariant does not carry: child ids and value types are at
+   most 4300 digits long (CPython's int <-> str limit; int() on the wire enforces it) *)
+Definition printable_reg (reg : list (Z * node)) : Prop :=
+  Forall (fun kn => Forall (fun kc => digits_ok (fst kc)
+                                      /\ Forall (fun kv => digits_ok (fst kv)) (c_values (snd kc)))
+                           (n_children (snd kn))) reg.
+
+Theorem reachable_reg_ok vlt w : Inv vlt w -> printable_reg (w_nodes w) -> reg_ok (w_nodes w).
+Proof.
+  intros Hi Hp. split; [apply (inv_nodup_nodes _ _ Hi)|].
+  pose proof (inv_nodes _ _ Hi) as Hn. pose proof (inv_keys _ _ Hi) as Hk.
+  unfold nodes_inv, printable_reg, keys in *. rewrite Forall_forall in *.
+  intros [k n] Hin. cbn [fst snd]. destruct (Hn _ Hin) as [Hid [Hb [Hc Hv]]]. cbn [fst snd] in *.
+  split; [exact Hid|]. split; [|split; [exact Hb|split; [exact Hc|]]].
+  - rewrite Hid. apply Hk. apply (in_map fst) in Hin. exact Hin.
+  - specialize (Hp _ Hin). cbn [snd] in Hp. rewrite Forall_forall in *. intros kc Hkc.
+    destruct (Hp _ Hkc) as [Hd Hvs]. split; [exact Hd|]. split; [exact (Hv _ Hkc)|exact Hvs].
+Qed.
